@@ -529,6 +529,7 @@ func c09Connectives(r *core.Run, p *core.Prog) {
 			}
 			return ""
 		}
+		fldComparator := p.FieldObj(pkgNode, "conditionNode", "comparator")
 		for _, cs := range ts.Body.List {
 			cc := cs.(*ast.CaseClause)
 			if len(cc.List) != 1 {
@@ -536,60 +537,115 @@ func c09Connectives(r *core.Run, p *core.Prog) {
 			}
 			tn := core.Str(cc.List[0])
 			where := p.Rel(cc.Pos())
-			switch tn {
-			case "andNode", "orNode":
-				dual := map[string]string{"andNode": "orNode", "orNode": "andNode"}[tn]
-				var underNeg, plain string
-				for _, st := range cc.Body {
-					if ifs, ok := st.(*ast.IfStmt); ok && negate != nil && core.ObjOf(info, ifs.Cond) == negate {
-						for _, b := range ifs.Body.List {
-							if rs, ok := b.(*ast.ReturnStmt); ok && len(rs.Results) >= 1 {
-								underNeg = litType(rs.Results[0])
-							}
-						}
-					}
-					if rs, ok := st.(*ast.ReturnStmt); ok && len(rs.Results) >= 1 {
-						plain = litType(rs.Results[0])
+			if tn != "andNode" && tn != "orNode" && tn != "notNode" && tn != "conditionNode" {
+				continue
+			}
+			// every path through the case body, with the outcome of each test of the negation flag (any polarity / branch
+			// order) and what is returned
+			wrap := &ast.BlockStmt{Lbrace: cc.Colon, List: cc.Body, Rbrace: cc.End()}
+			g := core.NewGraph(info, wrap)
+			caseVar := info.Implicits[cc]
+			cl := func(n ast.Node, cond *bool) []ev {
+				var out []ev
+				if cond != nil {
+					if atom, truth := normCond(n.(ast.Expr), *cond); negate != nil && core.ObjOf(info, atom) == negate {
+						out = append(out, ev{label: map[bool]string{true: "neg", false: "plain"}[truth]})
 					}
 				}
-				r.Check("complement-table", "negationNormalForm:"+tn, where, underNeg == dual && plain == tn,
-					fmt.Sprintf("De Morgan: a negated %s must become %s and an unnegated one stay %s; found negated->%q plain->%q", tn, dual, tn, underNeg, plain))
-				// both children are transformed with the same negate flag
-				n := 0
-				core.Walk(cc, true, func(x ast.Node) bool {
-					if c, ok := x.(*ast.CallExpr); ok && len(c.Args) == 3 && negate != nil && core.ObjOf(info, c.Args[1]) == negate {
-						n++
+				for _, c := range core.Calls(n, false) {
+					if core.CallName(info, c) == pkgNode+".transformComparator" {
+						out = append(out, ev{label: "transform"})
 					}
-					return true
-				})
-				r.Check("complement-table", "negationNormalForm:"+tn+":children", where, n == 2, fmt.Sprintf("both children must be normalised with the current negation flag (found %d such calls)", n))
-			case "notNode":
-				okN := false
-				core.Walk(cc, true, func(x ast.Node) bool {
-					if c, ok := x.(*ast.CallExpr); ok && len(c.Args) == 3 {
-						if u, ok := ast.Unparen(c.Args[1]).(*ast.UnaryExpr); ok && u.Op == token.NOT && core.ObjOf(info, u.X) == negate {
-							okN = true
+					if len(c.Args) == 3 && negate != nil {
+						if core.ObjOf(info, c.Args[1]) == negate {
+							out = append(out, ev{label: "child-same-flag"})
+						} else if atom, truth := normCond(c.Args[1], true); core.ObjOf(info, atom) == negate && !truth {
+							out = append(out, ev{label: "child-flipped-flag"})
+						} else if fl, ok := c.Fun.(*ast.Ident); ok && info.Uses[fl] != nil && info.Uses[fl].Name() == "helper" {
+							out = append(out, ev{label: "child-other-flag"})
 						}
 					}
-					return true
-				})
-				r.Check("complement-table", "negationNormalForm:notNode", where, okN, "a not-node must continue with the flipped negation flag")
-			case "conditionNode":
-				// `if !negate { return node }` then transformComparator
-				okC, usesT := false, false
-				core.Walk(cc, true, func(x ast.Node) bool {
-					if ifs, ok := x.(*ast.IfStmt); ok {
-						if u, ok := ast.Unparen(ifs.Cond).(*ast.UnaryExpr); ok && u.Op == token.NOT && core.ObjOf(info, u.X) == negate && core.Leaves(ifs.Body) {
-							okC = true
+				}
+				if a, ok := n.(*ast.AssignStmt); ok {
+					for _, l := range a.Lhs {
+						if core.SelField(info, l) == fldComparator {
+							out = append(out, ev{label: "set-comparator"})
 						}
 					}
-					if c, ok := x.(*ast.CallExpr); ok && core.CallName(info, c) == pkgNode+".transformComparator" {
-						usesT = true
+				}
+				if rs, ok := n.(*ast.ReturnStmt); ok && len(rs.Results) >= 1 {
+					switch {
+					case core.IsNil(info, rs.Results[0]):
+						out = append(out, ev{label: "ret:nil"})
+					case litType(rs.Results[0]) != "":
+						out = append(out, ev{label: "ret:" + litType(rs.Results[0])})
+					case caseVar != nil && core.ObjOf(info, rs.Results[0]) == caseVar:
+						out = append(out, ev{label: "ret:unchanged"})
+					default:
+						if _, isCall := ast.Unparen(rs.Results[0]).(*ast.CallExpr); isCall {
+							out = append(out, ev{label: "ret:call"})
+						} else {
+							out = append(out, ev{label: "ret:value"})
+						}
 					}
-					return true
-				})
-				r.Check("complement-table", "negationNormalForm:conditionNode", where, okC && usesT, "a leaf keeps its comparator when not negated and gets the complement comparator when negated")
+				}
+				return out
 			}
+			fake := &core.Fn{Prog: p, Pkg: f.Pkg, Decl: &ast.FuncDecl{Body: wrap, Name: f.Decl.Name, Type: &ast.FuncType{}}, Obj: f.Obj, Name: f.Name}
+			trs, ok := traces(fake, g, cl, 4000)
+			if !ok {
+				r.Undecided("complement-table", "negationNormalForm:"+tn, where, "too many paths")
+				continue
+			}
+			bad, nNeg, nPlain := "", 0, 0
+			dual := map[string]string{"andNode": "orNode", "orNode": "andNode"}[tn]
+			for _, t := range trs {
+				if t.has("ret:nil") || (t.has("neg") && t.has("plain")) {
+					continue // error return / infeasible
+				}
+				pl := pathLines(p, g, t.path)
+				switch tn {
+				case "andNode", "orNode":
+					switch {
+					case t.has("neg"):
+						nNeg++
+						if !t.has("ret:" + dual) {
+							bad = fmt.Sprintf("De Morgan: a negated %s must become %s: %s", tn, dual, pl)
+						}
+					case t.has("plain"):
+						nPlain++
+						if !t.has("ret:" + tn) {
+							bad = fmt.Sprintf("an unnegated %s must stay %s: %s", tn, tn, pl)
+						}
+					default:
+						bad = fmt.Sprintf("a %s is rebuilt without consulting the negation flag: %s", tn, pl)
+					}
+					if t.count("child-same-flag") != 2 || t.has("child-flipped-flag") || t.has("child-other-flag") {
+						bad = fmt.Sprintf("both children of a %s must be normalised with the current negation flag (found %d such calls): %s", tn, t.count("child-same-flag"), pl)
+					}
+				case "notNode":
+					nNeg, nPlain = 1, 1
+					if t.count("child-flipped-flag") != 1 || t.has("child-same-flag") || !t.has("ret:call") {
+						bad = "a not-node must be replaced by its child normalised with the flipped negation flag: " + pl
+					}
+				case "conditionNode":
+					switch {
+					case t.has("plain"):
+						nPlain++
+						if !t.has("ret:unchanged") || t.has("set-comparator") {
+							bad = "a leaf that is not negated must be returned unchanged: " + pl
+						}
+					case t.has("neg"):
+						nNeg++
+						if !t.has("transform") || !t.has("set-comparator") || t.has("ret:unchanged") {
+							bad = "a negated leaf must get the complement comparator (transformComparator): " + pl
+						}
+					default:
+						bad = "a leaf is handled without consulting the negation flag: " + pl
+					}
+				}
+			}
+			r.Check("complement-table", "negationNormalForm:"+tn, where, bad == "" && nNeg > 0 && nPlain > 0, orStr(bad, fmt.Sprintf("%d negated / %d plain paths", nNeg, nPlain)))
 		}
 	}
 }
